@@ -5,12 +5,16 @@ import Karp.Spec.Reapers
 namespace Karp.Driver.C16
 open Lean Karp.Driver Karp.Reapers Karp.Spec.Reapers
 
+/-- the harness's kube API error classes → the model's outcome classes: `notfound` (bare or wrapped — the
+    apimachinery predicates use `errors.As`) is what `client.IgnoreNotFound` swallows, `conflict` what
+    `IsConflict` sees; every other class is just an error -/
 def parseFault (s : String) : Except String Fault :=
   match s with
   | "" => pure .none
   | "err" => pure .err
-  | "notfound" => pure .notFound
+  | "notfound" | "notfound-wrapped" => pure .notFound
   | "conflict" => pure .conflict
+  | "timeout" | "throttled" | "forbidden" | "unavailable" | "gone" | "nomatch" | "canceled" | "deadline" => pure .err
   | _ => .error s!"bad fault class {s}"
 
 def faultD (j : Json) (k : String) : Except String Fault :=
@@ -119,8 +123,12 @@ def parseGC (inp : Json) : Except String GCIn := do
   let dfs ← (← arrD inp "deleteFaults").mapM (fun j => do
     pure ((← strF j "name"), (← parseFault (← strF j "fault"))))
   let lf ← (← arrD inp "nodeListFaultPids").mapM asStr
+  let orErr (o : Option String) : String := match o with | some "" | none => "err" | some s => s
+  let errs : GCErrFrame := {
+    listClaims := orErr (← strO inp "listClaimsErr"), providerList := orErr (← strO inp "providerListErr"),
+    providerListPartial := ← boolD inp "providerListPartial" false, lookup := orErr (← strO inp "nodeListErr") }
   pure { claims, provider, nodes, listClaimsFault := ← boolD inp "listClaimsFault" false,
-         providerListFault := ← boolD inp "providerListFault" false, lookupFault := lf, deleteFaults := dfs }
+         providerListFault := ← boolD inp "providerListFault" false, lookupFault := lf, deleteFaults := dfs, errs }
 
 def gcOp (inp impl : Json) : Except String Resp := do
   let i ← parseGC inp
@@ -136,10 +144,15 @@ def gcOp (inp impl : Json) : Except String Resp := do
       | some c =>
         let reasons :=
           (if c.registered != .true_ then ["it is not Registered"] else []) ++
-          (if i.listClaimsFault then ["the NodeClaim list failed"] else []) ++
-          (if !providerLacks i c then ["the provider still lists its instance (or the provider list failed)"] else []) ++
+          (if i.listClaimsFault then [s!"the NodeClaim list failed (error class '{i.errs.listClaims}')"] else []) ++
+          (if i.providerListFault then
+             [s!"cloudProvider.List failed (error class '{i.errs.providerList}'" ++
+              (if i.errs.providerListPartial then ", next to a partial result" else "") ++
+              "): that the provider no longer lists its instance was not established - a failed List is not an empty List, whatever the type of its error" ++
+              (if i.provider.any (fun p => p.pid == c.pid && !p.deleting) then "; the instance in fact still exists" else "")]
+           else if !providerLacks i c then ["the provider still lists its instance"] else []) ++
           (if !nodeAbsentOrNotReady i c then
-            [if i.lookupFault.contains c.pid then "its Node could not be looked up (absent / not Ready was not established)"
+            [if i.lookupFault.contains c.pid then s!"its Node could not be looked up (error class '{i.errs.lookup}'; absent / not Ready was not established)"
              else if i.nodes.any (fun n => n.pid == c.pid && n.ready && !n.terminating) then "a Node with its provider id is Ready"
              else "a Node with its provider id is Ready (it carries a deletion timestamp, but it is still present)"] else [])
         s!"garbage collection deleted NodeClaim {d} although " ++ "; ".intercalate reasons
